@@ -81,7 +81,7 @@ impl Property for C16 {
         "C16"
     }
     fn cases(&self, tier: Tier) -> u32 {
-        tier.pick(40_000, 400_000)
+        tier.pick(250_000, 2_500_000)
     }
     fn strategy(&self, _tier: Tier) -> BoxedStrategy<Abs> {
         abs_strategy()
